@@ -52,10 +52,13 @@ static std::vector< PSet > make_sets(bool thorough, long seed) {
   // constant perturbation pattern (seed selects the rotation of the table)
   const double pert[7] = {0.13, -0.31, 0.07, 0.29, -0.11, -0.23, 0.19};
   auto pp = [&](size_t i) { return pert[(i + seed) % 7]; };
-  const Box<> *const boxes[2] = {&unit, &skew};
-  for (int ib = 0; ib < 2; ++ib) {
+  // both orders of the sides: a side or bucket size taken from the wrong axis errs on the safe side in one
+  // order and on the unsafe side in the other
+  const Box<> weks(CoordinateVector<>(0.5, -1., -3.), CoordinateVector<>(1., 2., 4.));
+  const Box<> *const boxes[3] = {&unit, &skew, &weks};
+  for (int ib = 0; ib < 3; ++ib) {
     const Box<> &b = *boxes[ib];
-    const std::string bn = ib == 0 ? "unit" : "skew";
+    const std::string bn = ib == 0 ? "unit" : (ib == 1 ? "skew" : "skew124");
     const double smin = std::min(b.get_sides().x(), std::min(b.get_sides().y(), b.get_sides().z()));
     for (int m : (thorough ? std::vector< int >{2, 3, 4, 5, 7} : std::vector< int >{2, 3, 4})) {
       // cell-centred lattice
